@@ -1,4 +1,5 @@
 import RPVerif.Lemmas.States
+import RPVerif.Lemmas.StatesReach
 import RPVerif.Gen.States
 import RPVerif.Model.Callbacks
 
@@ -139,5 +140,41 @@ theorem C06_registry_use_harmless (reg : List Nat) (act : Nat → Edit) :
     the delivery - the callbacks after it never hear of the state -/
 example : deliver false [1, 2, 3] (fun id => if id = 1 then .unregister 1 else .nothing) = ([1], [2, 3], true) := by decide
 example : deliver true [1, 2, 3] (fun id => if id = 1 then .unregister 1 else .nothing) = ([1, 2, 3], [2, 3], false) := by decide
+
+/-! ### no notification is ignored (round 16) -/
+
+/-- **C06, no notification is ignored**: with `_state_sub_cb` handing every task notification of a batch to
+    `_update_tasks` (`Gen.stateSubPassesAll`, read from the source), after ANY batch - late, duplicated, out-of-order
+    notifications, other tasks in between - a known task is at least as far as EVERY notification of the batch that named
+    it (values of the state table; DONE, FAILED and CANCELED share the top value), in particular final once a final state
+    was reported for it, wherever in the batch that notification stood -/
+theorem C06_most_advanced (ts : Tasks) (b : List Upd) (hn : (uids ts).Nodup) (hw : ∀ u ∈ b, u.state.WF N)
+    (t : Task) (ht : t ∈ ts) (htw : t.state.WF N) (u : Upd) (hu : u ∈ b) (hid : u.uid = t.uid) :
+    ∃ t', (updateTasks N ts (subBatch Gen.stateSubPassesAll b)).1.find? (fun x => x.uid = t.uid) = some t'
+      ∧ u.state.val N ≤ t'.state.val N
+      ∧ (u.state.isFinal = true → t'.state.WF N → t'.state.isFinal = true) := by
+  have e : Gen.stateSubPassesAll = true := by decide
+  rw [e]
+  simp only [subBatch, if_true]
+  have hp := (updateTasksAux_proj (N := N) b hw ts [] hn t ht).1
+  refine ⟨(foldOne N t b).1, hp, foldOne_reaches b hw t htw u hu hid, ?_⟩
+  intro hf hwf
+  have h1 := foldOne_reaches (N := N) b hw t htw u hu hid
+  rw [val_final (N := N) hf] at h1
+  cases hs : (foldOne N t b).1.state with
+  | nf i =>
+    rw [hs] at h1 hwf
+    simp only [St.val, St.WF] at h1 hwf
+    omega
+  | done => rfl
+  | failed => rfl
+  | canceled => rfl
+
+/-- the hand-over matters: were only the last notification per task handed on, the batch [task 0 DONE, task 0 in state 13]
+    (a late notification behind the one that overtook it) would leave the task in state 13 and its DONE never seen -/
+theorem C06_most_advanced_witness :
+    ((updateTasks 15 [⟨0, .nf 12, none, none⟩] (subBatch false [⟨0, .done, none⟩, ⟨0, .nf 13, none⟩])).1.map (·.state)) = [.nf 13]
+    ∧ ((updateTasks 15 [⟨0, .nf 12, none, none⟩] (subBatch true [⟨0, .done, none⟩, ⟨0, .nf 13, none⟩])).1.map (·.state)) = [.done] := by
+  decide
 
 end RPVerif.C06
